@@ -38,6 +38,9 @@ CHECKS = {
  "C13": dict(level="model_checking", tech="TLA+ facet spec Lookup.tla + TLC-enumerated lookup/answer-shape histories on the real library + TLC trace validation",
              text="For getaddrinfo/gethostbyname the result must equal, as a set without duplicates, the (address, TTL, family) triples of the class-IN A/AAAA records of the accepted answers to the request's own queries restricted to the requested family, each with the requested port (or exactly the hosts-file entries / literal / loopback addresses); reverse lookups must ask exactly the reverse-map name and return PTR targets. Every reply carries unique marker addresses; TLC validates every recorded history (CNAME chains, multi-record answers, foreign-class records, sorting on/off, lookup orders b/fb/bf, hosts database) against the explicit spec.",
              note="Trusted: TLC, harness markers. Alias lists of hostent and cname lists of addrinfo are not compared; sortlist not exercised.", ref="4/C13"),
+ "C14": dict(level="fault_enumeration", tech="scenario family from GenOom.tla (TLC) x every allocation index failed once on the real library; each run validated by TLC against the life-cycle envelope OomTrace.tla and Sockets.tla; allocation ledger + ASan/LSan",
+             text="For each of 21 scenarios (init with options, every request kind to completion, cache hit, reconfiguration, reinit, cancel, TCP, cookies, downgrade, send failure, destroy with pending requests) the number N of library allocations is measured and the scenario is replayed failing exactly the n-th allocation (thorough: every n in 1..N; quick: the first 40 plus a seeded stride); every run must satisfy the TLA+ life-cycle contract (exactly one callback, cancel/destroy complete), leave no allocation behind (ledger, with LeakSanitizer naming the site), keep descriptor hygiene, and afterwards answer a fresh probe request and be destroyed.",
+             note="Allocations made by harness plumbing with the library's codec are not counted. Hash-table seeding is made reproducible by hook H6 so that an index names the same allocation in every run.", ref="4/C14"),
 }
 NA_REASON = "check not built yet in this round (specification planned in DESIGN.md section 4); not claimed until its machinery exists"
 
